@@ -1,6 +1,8 @@
 PROP = {'modules': ['Discv5Model.Props.C09', 'Discv5Model.Props.C09Started', 'Discv5Model.Props.C09Service'],
  'lemma_modules': ['Discv5Model.Proofs.QueryLemmas', 'Discv5Model.Proofs.QueryStarted', 'Discv5Model.Proofs.LookupLemmas', 'Discv5Model.Proofs.LookupLedger'],
- 'engines': [{'name': 'query', 'quick': 1000, 'thorough': 50000}, {'name': 'service', 'quick': 80, 'thorough': 4000}],
+ 'engines': [{'name': 'query', 'quick': 1000, 'thorough': 50000},
+             {'name': 'service', 'quick': 80, 'thorough': 4000},
+             {'name': 'service', 'quick': 12, 'thorough': 200, 'model': False, 'profile': 'C09conc'}],
  'rule': 'query engine (cases shared with C10): 6/7 of the cases drive one FindNodeQuery or PredicateQuery directly with explicit time (parallelism 1..8, '
          'num_results 1..24, occasionally 0; peer timeout 0..100): next at deadlines -1/0/+1, success / failure for outstanding requests (@k), already '
          'answered ones (%k) and never-contacted ids, closer lists with new / duplicate / closer / farther ids and the target itself, ids that agree with the '
